@@ -20,15 +20,23 @@ import (
 )
 
 func main() {
-	if os.Getenv("VERIF_SCHEMA_CHILD") != "" {
+	switch os.Getenv("VERIF_SCHEMA_CHILD") {
+	case "":
+	case "build":
+		buildChildMain()
+		return
+	default:
 		childMain()
 		return
 	}
 	hk.Main(&hk.Component{Name: "schema", Rule: "struct types built at run time with reflect.StructOf from a seeded type grammar (scalars of every int/float kind, pointers, slices, arrays, maps, nested structs, " +
 		"json tags with names/omitempty/-, jsonschema tags; each type carries at most one non-fragment construct: []byte, time.Time, embedded struct (value / pointer / tagged), `,string`, interface, " +
-		"JSON names needing pointer escaping, `-,`) plus a corpus of hand-written named types (list, tree, mutual recursion, map of self, wide recursion, recursion through " +
+		"JSON names needing pointer escaping, `-,`, awkward jsonschema tags: every keyword of the tag parser in both tag formats with RE2-invalid patterns, commas / `=` / quotes / semicolons in values, odd numbers, unknown keywords, empty values) plus a corpus of hand-written named types (list, tree, mutual recursion, map of self, wide recursion, recursion through " +
 		"anonymous structs, shared sibling types, generic instantiation, colliding type names); x {inline, $defs, nested-ref}; per case: a fully populated value (recursive types: shallow and deep unfolding) " +
 		"and mutated instances. Oracle (model-free): generation terminates, every $ref resolves by JSON pointer, property names = encoding/json's names, python-jsonschema (Draft 2020-12) accepts json.Marshal(value). " +
+		"Tag probes: one tagged field per tag x {str,int,float,bool,slice} x style: the field stays, the parsed keywords against the Lean model of the tag parser. " +
+		"Tool-construction histories: several tools over one compile-time struct type built in one process through NewTool / WithInputStruct / WithOutputStruct / WithString ... in seeded orders and styles, registered and listed " +
+		"through a real client: the listed schema is what building that tool alone in a fresh sub-process gives, earlier tools never change, names = encoding/json's + the tool's own parameters. " +
 		"Differential: generator output, json.Marshal, field names and validator verdicts against the Lean model. Non-trivial = the type has at least one struct/container level below the root or is recursive.",
 		Run: run})
 }
@@ -171,11 +179,11 @@ func run(c *hk.Ctx) {
 	}
 
 	// random run-time types
-	n := 130
+	n := 144
 	if c.Thorough() {
-		n = 1500
+		n = 1640
 	}
-	constructs := []string{"bytes", "time", "embedded", "embedded-ptr", "embedded-tagged", "string-option", "interface", "ref-escape", "dash-comma", "repeat", "repeat-deep"}
+	constructs := []string{"bytes", "time", "embedded", "embedded-ptr", "embedded-tagged", "string-option", "interface", "ref-escape", "dash-comma", "repeat", "repeat-deep", "js-tags"}
 	safeNamed := []string{}
 	for _, cs := range cases {
 		if cs.construct == "" && cs.name != "Wide" {
@@ -215,9 +223,12 @@ func run(c *hk.Ctx) {
 		r.runCase(cs, []int{2})
 	}
 
+	r.tagProbes()
+	r.nonFinite()
 	r.bigInts()
 	r.endToEnd(cases)
 	r.histories(cases)
+	r.buildHistories()
 }
 
 func mustJSON(v any) string {
@@ -359,8 +370,12 @@ func (r *runner) runCase(cs tcase, budgets []int) {
 
 		// differential: generator output vs model
 		if modelOK(st) {
+			canon := stripAnnotations(docs[st])
+			if cs.construct == "js-tags" {
+				canon = stripKeywords(canon, constraintKeywords) // the keywords themselves: schema.tags (tagProbe)
+			}
 			c.Emit(map[string]any{"c": "schema.gen", "style": st, "env": env, "t": cs.td},
-				map[string]any{"schema": stripAnnotations(docs[st])}, nontrivial, "tdiff:gen:"+st)
+				map[string]any{"schema": canon}, nontrivial, "tdiff:gen:"+st)
 		}
 	}
 	if b, fail := r.generate(cs, "default"); fail == "" && schemas["nested"] != nil && !bytes.Equal(b, schemas["nested"]) {
@@ -394,6 +409,10 @@ func (r *runner) runCase(cs tcase, budgets []int) {
 			sb, ok := schemas[st]
 			if !ok {
 				continue
+			}
+			if cs.construct == "js-tags" {
+				// the populated value is not generated to satisfy a tag's pattern / enum / bounds: acceptance is judged without them
+				sb = []byte(mustJSON(stripKeywords(docs[st], constraintKeywords)))
 			}
 			// property names = encoding/json's field names (top level; sub-structs are cases of their own, see below)
 			if !deep {
